@@ -68,34 +68,20 @@ def denote : {α : Type} → Prog σ α → M σ α
   | _, @Prog.range _ _ _ l body => forEach (fun x => denote (body x)) l
   | _, .loop n body => loopM n (fun k => denote (body k))
 
-def toAtoms : List Tok → List Atom
-  | [] => []
-  | .atom a :: r => a :: toAtoms r
-  | .range _ :: r => .step "?nested-range" :: toAtoms r
+/-- the control structure without the semantics: continuations are applied to a default value -/
+def shape : {α : Type} → Prog σ α → Shape
+  | _, .stmt tok _ => .stmt tok
+  | _, .abort tok _ => .abort tok
+  | _, .quiet _ => .quiet
+  | _, @Prog.bind _ _ _ inst p f => .seq (shape p) (shape (f (@default _ inst)))
+  | _, .ite watch _ t e => .ite watch (shape t) (shape e)
+  | _, .defer_ d body => .defer_ (shape d) (shape body)
+  | _, .closure body => .closure (shape body)
+  | _, @Prog.range _ _ inst _ body => .range (shape (body (@default _ inst)))
+  | _, .loop _ body => .loop (shape (body 0))
 
-/-- a step of a deferred call -/
-def asDeferred : Tok → Tok
-  | .atom (.step s) => .atom (.deferred s)
-  | t => t
-
-def paths : {α : Type} → Prog σ α → List SkelPath
-  | _, .stmt tok _ => [([.atom (.step tok)], false)]
-  | _, .abort tok _ => [([.atom (.step tok)], true)]
-  | _, .quiet _ => [([], false)]
-  | _, @Prog.bind _ _ _ inst p f =>
-    (paths p).flatMap fun a =>
-      if a.2 then [a] else (paths (f (@default _ inst))).map fun b => (a.1 ++ b.1, b.2)
-  | _, .ite watch _ t e =>
-    let mark (v : Bool) : List Tok := match watch with
-      | some n => [.atom (.cond n v)]
-      | none => []
-    (paths t).map (fun a => (mark true ++ a.1, a.2)) ++ (paths e).map (fun a => (mark false ++ a.1, a.2))
-  | _, .defer_ d body =>
-    (paths body).flatMap fun a => (paths d).map fun dp => (a.1 ++ dp.1.map asDeferred, a.2)
-  | _, .closure body => paths body
-  | _, @Prog.range _ _ inst _ body =>
-    [([.range ((paths (body (@default _ inst))).map fun a => (toAtoms a.1, a.2))], false)]
-  | _, .loop _ body => paths (body 0)
+/-- the set of acyclic paths of interaction steps of a program -/
+def paths {α : Type} (p : Prog σ α) : List SkelPath := (shape p).paths
 
 end Prog
 
